@@ -23,6 +23,7 @@ import MagpyVerif.Lemmas.KernelLiterals
 import MagpyVerif.Props.C15
 import MagpyVerif.Model.Polyline
 import MagpyVerif.Lemmas.KernCylSeg
+import MagpyVerif.Lemmas.KernCylSegScale
 namespace MagpyVerif.C12
 open MagpyVerif MagpyVerif.Kern
 
@@ -509,4 +510,53 @@ theorem cylseg_scale_invariant (μ : ℝ) (S : SegSpecial) (l : ℝ) (hl : 0 < l
   rw [segNormalise_scale μ S l hl x r1 r2 h p1 p2 hr2]
 
 example : (2 : ℝ) ≠ 0 := by norm_num
+/-! ### CylinderSegment -/
+namespace MagpyVerif.C12
+open MagpyVerif MagpyVerif.Kern MagpyVerif.Kern.CylSeg
+
+/- FULL: the same without `r2 ≠ 0`.  For `r2 = 0` the code's unit is 1 (`np.where(r2 > 0, r2, 1.0)`), nothing is normalised
+and the absolute part of `close` (atol = 1e-12, `cylseg_close_not_scale_invariant`) and of the `1e-14` slabs decides; a
+segment with outer radius 0 is an empty body (the docstring asks `r1 < r2`). -/
+/-- **C12 (CylinderSegment): all four outputs of the ported `BHJM_cylinder_segment` are unchanged when `r1`, `r2`, `h` and the
+observer are multiplied by the same `l > 0`**, for every observer (inside, outside, on a face, on an edge, on the axis, next
+to a special case of the 26-case analysis), every polarization and every pair of section angles.  Individual boundary terms
+contain `log r_i` etc. and are not invariant; the code never evaluates them at the user's scale: it divides all lengths by
+the outer radius first (repair 1470506), so masks, case ids and every argument of the case functions and of
+`ellipkinc` / `ellipeinc` / `el3_angle` are literally the same numbers at every scale.  `none` (NaN row) at one scale iff at
+the other. -/
+theorem cylseg_scale_invariant_partial (μ : ℝ) (S : SegSpecial) (l : ℝ) (hl : 0 < l) (f : Field) (x : V3 ℝ)
+    (r1 r2 h p1 p2 : ℝ) (hr2 : r2 ≠ 0) (pol : V3 ℝ) :
+    @bhjmCylSeg ℝ (realNumX μ S) f (@vs ℝ (realNum μ) l x) (l * r1) (l * r2) (l * h) p1 p2 pol =
+      @bhjmCylSeg ℝ (realNumX μ S) f x r1 r2 h p1 p2 pol :=
+  bhjmCylSeg_scale μ S l hl f x r1 r2 h p1 p2 hr2 pol
+
+-- non-vacuity: millimetres vs metres
+example (μ : ℝ) (S : SegSpecial) (pol : V3 ℝ) :
+    @bhjmCylSeg ℝ (realNumX μ S) .B (@vs ℝ (realNum μ) 1000 ⟨3, 4, 5⟩) (1000 * 1) (1000 * 2) (1000 * 3) 10 80 pol =
+      @bhjmCylSeg ℝ (realNumX μ S) .B ⟨3, 4, 5⟩ 1 2 3 10 80 pol :=
+  cylseg_scale_invariant_partial μ S 1000 (by norm_num) .B _ 1 2 3 10 80 (by norm_num) pol
+
+/-- the same for `BHJM_cylinder_segment_internal` (what the CylinderSegment class calls), through the switch to
+Cylinder(2·r2, h) − Cylinder(2·r1, h) for ranges of 360° or more -/
+theorem cylseg_internal_scale_invariant_partial (μ : ℝ) (S : SegSpecial) (l : ℝ) (hl : 0 < l) (fuel : Nat) (f : Field)
+    (x : V3 ℝ) (r1 r2 h p1 p2 : ℝ) (hr2 : r2 ≠ 0) (pol : V3 ℝ) :
+    @bhjmCylSegInternal ℝ (realNumX μ S) fuel f (@vs ℝ (realNum μ) l x) (l * r1) (l * r2) (l * h) p1 p2 pol =
+      @bhjmCylSegInternal ℝ (realNumX μ S) fuel f x r1 r2 h p1 p2 pol :=
+  bhjmCylSegInternal_scale μ S l hl fuel f x r1 r2 h p1 p2 hr2 pol
+
+/-- the normalised row (observer / r2, radii / r2, ±h / (2 r2), angles in rad shifted into [−2π, 2π]) — the only thing the
+masks (`segMasks`: inside / on-surface) and `determine_cases` ever see — is the same at every scale -/
+theorem cylseg_normalised_row_scale_invariant (μ : ℝ) (S : SegSpecial) (l : ℝ) (hl : 0 < l) (x : V3 ℝ)
+    (r1 r2 h p1 p2 : ℝ) (hr2 : r2 ≠ 0) :
+    @segNormalise ℝ (realNumX μ S) (@vs ℝ (realNum μ) l x) (l * r1) (l * r2) (l * h) p1 p2 =
+      @segNormalise ℝ (realNumX μ S) x r1 r2 h p1 p2 :=
+  segNormalise_scale μ S l hl x r1 r2 h p1 p2 hr2
+
+/-- witness that the hypothesis matters / that the core alone is not unit invariant: `close` (rtol = atol = 1e-12), hence
+`determine_cases` and `magnet_cylinder_segment_Hfield` called directly with un-normalised lengths, depends on the scale -/
+theorem cylseg_close_not_scale_invariant (μ : ℝ) (S : SegSpecial) :
+    @close ℝ (realNumX μ S) (2 / 1000000000000) 0 = false ∧
+    @close ℝ (realNumX μ S) (1 / 4 * (2 / 1000000000000)) (1 / 4 * 0) = true :=
+  close_not_scale_invariant μ S
+
 end MagpyVerif.C12
